@@ -21,7 +21,20 @@ import (
 	"github.com/B1NARY-GR0UP/originium/types"
 )
 
+// Merge sorted lists, the entry of a later list wins over an equal key of an earlier one,
+// tombstones are dropped from the result
 func Merge(lists ...[]types.Entry) []types.Entry {
+	return merge(false, lists...)
+}
+
+// MergeAll is Merge that keeps tombstones: a compaction must carry a deletion marker
+// along as long as an older version of the key can exist in a deeper level or be
+// visible to an open reader
+func MergeAll(lists ...[]types.Entry) []types.Entry {
+	return merge(true, lists...)
+}
+
+func merge(keepTombstone bool, lists ...[]types.Entry) []types.Entry {
 	h := &Heap{}
 	heap.Init(h)
 
@@ -55,7 +68,7 @@ func Merge(lists ...[]types.Entry) []types.Entry {
 	var merged []types.Entry
 
 	for _, entry := range latest {
-		if entry.Tombstone {
+		if entry.Tombstone && !keepTombstone {
 			continue
 		}
 		merged = append(merged, entry)
